@@ -37,7 +37,7 @@ struct Content {
     bool locks = false; bool analogGroupEmpty = false; int valueSet = 0; int gapWord = 10;
     // hooks used by the C12 pattern files
     std::function<uint32_t(int, int, int)> ptFn, anFn; std::vector<GParam> customParams; std::vector<uint32_t> eventTimes; bool haveRateBits = false; uint32_t rateBits = 0;
-    int lastOverride = -1; bool blankLabel = false; bool reservedNonZero = false; bool longNames = false; int keyLabel = 0, firstKeyBlock = 0; bool noDataStart = false; int padBlocks = 0;
+    int lastOverride = -1; bool blankLabel = false; bool reservedNonZero = false; bool longNames = false; int keyLabel = 0, firstKeyBlock = 0; bool noDataStart = false; int padBlocks = 0; std::string optParams = "std";   // std | minimal (no POINT:DESCRIPTIONS/UNITS, no ANALOG:UNITS) | rich (ANALOG:DESCRIPTIONS too)
 };
 struct Layout {
     int zeros = 0; bool zeroPrologue = false; int paramBlock = 2; std::string order = "default"; std::string ids = "dense"; bool lastOffsetZero = false; bool lowerNames = false;
@@ -63,8 +63,8 @@ inline std::vector<GGroup> buildGroups(const Content& c, const Layout& l) {
     if (!c.noDataStart) P.params.push_back(GParam::ints("DATA_START", {}, {0}, true));      // patched by encode(); some vendor files do not carry it
     P.params.push_back(GParam::ints("FRAMES", {}, {c.nFrames}, true));
     {   int n = std::min(255, std::max(0, c.nPoints + c.labelsDelta)); std::vector<std::string> v; for (int i = 0; i < n; ++i) v.push_back(ptLabel(i)); if (c.blankLabel && n > 0) v[(size_t)n - 1] = "    "; P.params.push_back(GParam::strs("LABELS", 4, {n}, v, D("labels")));
-        int nd = std::min(c.nPoints, 255); std::vector<std::string> d; for (int i = 0; i < nd; ++i) d.push_back(i % 2 ? "" : "desc" + std::to_string(i)); P.params.push_back(GParam::strs("DESCRIPTIONS", 8, {nd}, d)); }
-    P.params.push_back(GParam::strs("UNITS", 4, {}, {"mm"}));           // 1-D padded string
+        int nd = std::min(c.nPoints, 255); std::vector<std::string> d; for (int i = 0; i < nd; ++i) d.push_back(i % 2 ? "" : "desc" + std::to_string(i)); if (c.optParams != "minimal") P.params.push_back(GParam::strs("DESCRIPTIONS", 8, {nd}, d)); }
+    if (c.optParams != "minimal") P.params.push_back(GParam::strs("UNITS", 4, {}, {"mm"}));           // 1-D padded string
     G.push_back(P);
     GGroup A; A.name = "ANALOG"; A.desc = D("analog parameters");
     if (!c.analogGroupEmpty) {
@@ -73,7 +73,8 @@ inline std::vector<GGroup> buildGroups(const Content& c, const Layout& l) {
         A.params.push_back(GParam::floats("GEN_SCALE", {}, {f2b(1.0f)}));
         { std::vector<uint32_t> v; for (int i = 0; i < c.nChans; ++i) v.push_back(f2b(1.0f + (float)i)); A.params.push_back(GParam::floats("SCALE", {c.nChans}, v)); }
         { std::vector<int> v; for (int i = 0; i < c.nChans; ++i) v.push_back(-i * 7); A.params.push_back(GParam::ints("OFFSET", {c.nChans}, v)); }
-        { std::vector<std::string> v; for (int i = 0; i < c.nChans; ++i) v.push_back("V"); A.params.push_back(GParam::strs("UNITS", 4, {c.nChans}, v)); }
+        if (c.optParams != "minimal") { std::vector<std::string> v; for (int i = 0; i < c.nChans; ++i) v.push_back("V"); A.params.push_back(GParam::strs("UNITS", 4, {c.nChans}, v)); }
+        if (c.optParams == "rich") { std::vector<std::string> v; for (int i = 0; i < c.nChans; ++i) v.push_back("chan " + std::to_string(i)); A.params.push_back(GParam::strs("DESCRIPTIONS", 7, {c.nChans}, v)); }
         A.params.push_back(GParam::floats("RATE", {}, {f2b(c.analogRate)}, true, D("analog rate")));
     }
     G.push_back(A);
@@ -190,6 +191,7 @@ inline std::vector<Dim> dims(bool thorough) {
     d.push_back({"reserved", {"zero", "nonzero"}});
     d.push_back({"datastart", {"present", "absent"}});
     d.push_back({"padblocks", {"0", "1", "3"}});
+    d.push_back({"optparams", {"std", "minimal", "rich"}});
     return d;
 }
 using Choice = std::map<std::string, std::string>;
@@ -205,7 +207,7 @@ inline bool apply(const Choice& ch, Content& c, Layout& l) {   // returns false 
     l.lastOffsetZero = get("lastoff", "ptr") == "zero";
     c.reservedNonZero = get("reserved", "zero") == "nonzero";
     c.noDataStart = get("datastart", "present") == "absent";
-    c.padBlocks = atoi(get("padblocks", "0").c_str());
+    c.padBlocks = atoi(get("padblocks", "0").c_str()); c.optParams = get("optparams", "std");
     c.longNames = get("names", "std") == "long"; if (c.longNames && c.extra == "none") return false;
     if (get("hdrwords", "std") == "odd") { c.gapWord = 65535; c.keyLabel = 12345; c.firstKeyBlock = 7; c.scaleBits = 0xBE800000u; }
     c.analogGroupEmpty = get("agroup", "full") == "empty"; if (c.analogGroupEmpty) { if (ch.count("chans") && ch.at("chans") != "0") return false; c.nChans = 0; if (ch.count("alabels")) return false; }
